@@ -175,10 +175,23 @@ impl Manifest {
             serde_json::to_writer(&mut json, entry)?;
         }
         serde_json::to_writer(&mut json, &ManifestOperation::End)?;
+        // verif crash points (C04): detail = byte length of every record of this append
+        #[cfg(risinglight_verif)]
+        {
+            let mut lens = vec![serde_json::to_vec(&ManifestOperation::Begin)?.len()];
+            for entry in entries {
+                lens.push(serde_json::to_vec(entry)?.len());
+            }
+            lens.push(serde_json::to_vec(&ManifestOperation::End)?.len());
+            let lens: Vec<String> = lens.iter().map(|x| x.to_string()).collect();
+            crate::verif::point_sync("persist.manifest.append", &lens.join(","));
+        }
         file.write_all(&json).await?;
         if self.enable_fsync {
             file.sync_data().await?;
         }
+        #[cfg(risinglight_verif)]
+        crate::verif::point_sync("persist.manifest.synced", "");
         Ok(())
     }
 }
